@@ -592,3 +592,78 @@ class TraceAppend(FunctionContract):
 
 
 CONTRACTS_TRACE.append(TraceAppend())
+
+
+class TracerInit(FunctionContract):
+    """TracerMixin.__init__: after the model's own constructor, one variable named TRACE_NAME is appended to the declaration order; it holds one
+    *separate*, empty Trace per period (so that a snapshot of one period never shows up in another); a model that already has a variable of
+    that name is refused (DuplicateNameError)."""
+    qualname = 'fsic.extensions.model.TracerMixin.__init__'
+    props = ('C17', 'C11')
+    required_covers = ('constructed', 'duplicate')
+
+    def scenarios(self):
+        return ['fresh', 'name-taken', 'renamed']
+
+    def setup(self, interp, scenario):
+        import numpy as np
+        import pyvc.libspec as L
+        from fsic.extensions.model import Trace
+        e = {'scenario': scenario, 'traces': [], 'parent': [], 'arrays': []}
+
+        class Cls(Traced):
+            TRACE_NAME = 'history' if scenario == 'renamed' else 'trace'
+        index = ['Y', 'trace'] if scenario == 'name-taken' else ['Y']
+        obj = SObj(Cls, {}, label='traced')
+        e['obj'], e['cls'], e['index0'] = obj, Cls, list(index)
+
+        def parent_init(interp_, o, args, kwargs, node):
+            e['parent'].append((list(args), dict(kwargs)))
+            o.fields['index'] = list(index)
+            o.fields['span'] = [2000, 2001, 2002]
+            return None
+
+        def new_trace(interp_, args, kwargs, node):
+            tr = ('Trace', len(e['traces']), list(args[0]) if args else None)
+            e['traces'].append(tr)
+            return tr
+        new_trace.always = True
+        L._MODELS[Trace] = new_trace
+
+        def array(interp_, args, kwargs, node):
+            a = list(args[0])
+            e['arrays'].append(a)
+            return ('array', len(e['arrays']) - 1)
+        array.always = True
+        L._MODELS[np.array] = array
+        interp.registry.set_calls({'fsic.core.models.BaseModel.__init__': parent_init})
+        e['span_arg'], e['kw'] = [2000, 2001, 2002], {'Y': object()}
+        e['inputs'] = {}
+        return Call([e['span_arg']], dict(e['kw']), self_obj=obj, entry=e)
+
+    def post(self, interp, scenario, call, out):
+        from fsic.exceptions import DuplicateNameError
+        ctx = interp.ctx
+        e = call.entry
+        f = e['obj'].fields
+        ok = len(e['parent']) == 1 and e['parent'][0][0] == [e['span_arg']] and set(e['parent'][0][1]) == set(e['kw']) and all(e['parent'][0][1][k] is v for k, v in e['kw'].items())
+        ctx.prove(z3.BoolVal(ok), 'the_model_constructor_runs_first_exactly_once_with_the_same_arguments', 'ensures')
+        name = e['cls'].TRACE_NAME
+        if out.kind == 'raise':
+            ctx.cover('duplicate')
+            ctx.prove(z3.BoolVal(exc_class(out.exc) is DuplicateNameError and scenario == 'name-taken'), 'DuplicateNameError_only_when_the_trace_name_is_already_a_variable', 'raises')
+            ctx.prove(z3.BoolVal(f.get('index') == e['index0'] and ('_' + name) not in f), 'a_refused_construction_adds_no_trace_variable', 'frame')
+            return
+        ctx.cover('constructed')
+        ctx.prove(z3.BoolVal(scenario != 'name-taken'), 'an_existing_variable_of_that_name_is_refused', 'raises')
+        ctx.prove(z3.BoolVal(f.get('index') == e['index0'] + [name]), 'trace_variable_appended_once_to_the_declaration_order', 'ensures', note=str(f.get('index')))
+        arr = f.get('_' + name)
+        ok = isinstance(arr, tuple) and arr[0] == 'array' and len(e['arrays'][arr[1]]) == 3
+        ctx.prove(z3.BoolVal(ok), 'one_trace_per_period', 'ensures')
+        if ok:
+            items = e['arrays'][arr[1]]
+            ctx.prove(z3.BoolVal(len({id(x) for x in items}) == 3 and all(isinstance(x, tuple) and x[0] == 'Trace' and x[2] == [] for x in items)),
+                      'each_period_has_its_own_separate_empty_trace', 'own', note=str(items))
+
+
+CONTRACTS_TRACE.append(TracerInit())
